@@ -1,6 +1,7 @@
 package main
 
 import (
+	"context"
 	"encoding/json"
 	"flag"
 	"fmt"
@@ -9,6 +10,7 @@ import (
 	"regexp"
 	"sort"
 	"strings"
+	"sync"
 	"time"
 )
 
@@ -241,6 +243,58 @@ func runCheck(id, tier, repo, dump, only string, list bool) int {
 	outDir := filepath.Join(verifDir, "out", id)
 	os.RemoveAll(outDir)
 	stats := solveAll(all, SolveOpts{Secs: secs, Agree: tier == "thorough", OutDir: outDir, Parallel: 16, Seed: seed})
+	escalateCovers(all, stats)
 	rep := buildReport(id, tier, seed, &claim, results, all, stats, internalErrs, engines, repo, time.Since(t0).Seconds(), list)
 	return rep
+}
+
+// escalateCovers: a call-site cover pair whose "after" query is unsat (the callee's contract, or an assume, makes the
+// continuation contradictory) but whose "before" query was not decided within the one-second budget is re-run with a
+// longer budget on all solvers: if the call site turns out to be reachable the pair is a vacuity finding.
+func escalateCovers(all []*Obligation, stats map[string]*solverStat) {
+	byName := map[string]*Obligation{}
+	for _, o := range all {
+		byName[o.Name] = o
+	}
+	var wg sync.WaitGroup
+	sem := make(chan struct{}, 16)
+	for _, o := range all {
+		i := strings.Index(o.Name, "::cover.after.")
+		if i < 0 || o.Verdict != "unsat" {
+			continue
+		}
+		b := byName[o.Name[:i]+"::cover.before."+o.Name[i+len("::cover.after."):]]
+		if b == nil || b.Verdict == "sat" || b.Verdict == "unsat" || b.File == "" {
+			continue
+		}
+		wg.Add(1)
+		sem <- struct{}{}
+		go func(b *Obligation) {
+			defer wg.Done()
+			defer func() { <-sem }()
+			ctx, cancel := context.WithCancel(context.Background())
+			defer cancel()
+			type res struct {
+				s, v, out string
+				d         float64
+			}
+			ch := make(chan res, len(solvers))
+			for _, sp := range solvers {
+				sp := sp
+				go func() {
+					v, out, d := runSolver(sp, b.File, 20, ctx)
+					ch <- res{sp.name, v, out, d}
+				}()
+			}
+			for range solvers {
+				r := <-ch
+				b.Secs += r.d
+				if r.v == "sat" || r.v == "unsat" {
+					b.Verdict, b.Solver, b.Output = r.v, r.s, r.out
+					return
+				}
+			}
+		}(b)
+	}
+	wg.Wait()
 }
